@@ -308,16 +308,19 @@ func blsSingleCase[
 	PK curves.PairingFriendlyPoint[PK, PKFE, SG, SGFE, tGT, tSC], PKFE algebra.FieldElement[PKFE],
 	SG curves.PairingFriendlyPoint[SG, SGFE, PK, PKFE, tGT, tSC], SGFE algebra.FieldElement[SGFE],
 ](t *rapid.T, test string, e *blsEnv[PK, PKFE, SG, SGFE]) {
+	alt := rapid.SampledFrom([]string{
+		"msg", "sig-other-msg", "sig-neg", "sig+G", "sig-identity", "pk-other", "pk-neg", "pk+torsion", "pk-identity",
+		"pop-other-key", "pop-missing", "pop-msg-dst", "dst-custom-match", "dst-custom-mismatch", "dst-other-alg", "mode-mismatch", "empty-msg",
+	}).Draw(t, "alt")
 	alg := rapid.SampledFrom(allAlgs).Draw(t, "alg")
+	if alt == "pop-other-key" || alt == "pop-missing" || alt == "pop-msg-dst" {
+		alg = bls.POP // proof-of-possession alterations need the POP scheme
+	}
 	msg, msgClass := genMsg(t, "msg", false)
 	sch, err := e.scheme(alg)
 	if err != nil {
 		t.Fatalf("scheme: %v", err)
 	}
-	alt := rapid.SampledFrom([]string{
-		"msg", "sig-other-msg", "sig-neg", "sig+G", "sig-identity", "pk-other", "pk-neg", "pk+torsion", "pk-identity",
-		"pop-other-key", "pop-missing", "pop-msg-dst", "dst-custom-match", "dst-custom-mismatch", "dst-other-alg", "mode-mismatch", "empty-msg",
-	}).Draw(t, "alt")
 	customDST := "C15-CUSTOM-DST-" + e.sigGroup
 	var sopts []bls.SignerOption[PK, PKFE, SG, SGFE, tGT, tSC]
 	signDST := draftDST(alg, e.sigGroup)
@@ -415,9 +418,6 @@ func blsSingleCase[
 			t.Fatalf("%s: NewPublicKey accepts the identity", where)
 		}
 	case "pop-other-key", "pop-missing", "pop-msg-dst":
-		if alg != bls.POP {
-			t.Skip("proof-of-possession alterations need the POP scheme")
-		}
 		switch alt {
 		case "pop-other-key":
 			o := otherSigner()
@@ -505,7 +505,7 @@ func blsSingleCase[
 // TestBLSSingle: Sign / Verify for short and long keys x {Basic, MessageAugmentation, POP}.
 func TestBLSSingle(t *testing.T) {
 	const test = "BLSSingle"
-	vlib.Check(t, 110, func(t *rapid.T) {
+	vlib.Check(t, 100, func(t *rapid.T) {
 		if rapid.Bool().Draw(t, "short") {
 			blsSingleCase(t, test, blsShort)
 		} else {
@@ -521,9 +521,27 @@ func blsAggCase[
 	type sigT = *bls.Signature[SG, SGFE, PK, PKFE, tGT, tSC]
 	type popT = *bls.ProofOfPossession[SG, SGFE, PK, PKFE, tGT, tSC]
 	type pkT = *bls.PublicKey[PK, PKFE, SG, SGFE, tGT, tSC]
+	alt := rapid.SampledFrom([]string{
+		"none", "none", "none", "drop-sig", "drop-key", "foreign-signer", "swap-msgs", "swap-keys", "identity-key", "torsion-key",
+		"identity-sig", "msg-bit", "pop-wrong", "pop-count", "pops-on-non-pop", "wrong-dst", "len-mismatch", "key-other", "identity-key-consistent",
+	}).Draw(t, "alt")
 	alg := rapid.SampledFrom(allAlgs).Draw(t, "alg")
-	n := rapid.IntRange(1, 6).Draw(t, "n")
-	layout := rapid.SampledFrom([]string{"distinct", "distinct", "same", "one-dup"}).Draw(t, "layout")
+	minN := 1
+	layouts := []string{"distinct", "distinct", "same", "one-dup"}
+	switch alt {
+	case "pop-wrong", "pop-count":
+		alg = bls.POP
+	case "pops-on-non-pop":
+		alg = rapid.SampledFrom([]bls.RogueKeyPreventionAlgorithm{bls.Basic, bls.MessageAugmentation}).Draw(t, "algNoPop")
+	}
+	switch alt {
+	case "drop-sig", "drop-key", "pop-wrong", "identity-key-consistent":
+		minN = 2
+	case "swap-msgs", "swap-keys":
+		minN, layouts = 2, []string{"distinct", "one-dup"}
+	}
+	n := rapid.IntRange(minN, 6).Draw(t, "n")
+	layout := rapid.SampledFrom(layouts).Draw(t, "layout")
 	sch, err := e.scheme(alg)
 	if err != nil {
 		t.Fatalf("scheme: %v", err)
@@ -579,10 +597,6 @@ func blsAggCase[
 		t.Fatalf("bls/%s: aggregate of %d signatures is %x, the model's sum is %x", e.name, n, agg.Bytes(), want)
 	}
 
-	alt := rapid.SampledFrom([]string{
-		"none", "none", "none", "drop-sig", "drop-key", "foreign-signer", "swap-msgs", "swap-keys", "identity-key", "torsion-key",
-		"identity-sig", "msg-bit", "pop-wrong", "pop-count", "pops-on-non-pop", "wrong-dst", "len-mismatch", "key-other",
-	}).Draw(t, "alt")
 	at := rapid.IntRange(0, n-1).Draw(t, "at")
 	aSigV, aSigIdent := agg.Value(), false
 	vDST := draftDST(alg, e.sigGroup)
@@ -590,9 +604,6 @@ func blsAggCase[
 	lenMismatch := false
 	switch alt {
 	case "drop-sig":
-		if n < 2 {
-			t.Skip("needs two signers")
-		}
 		rest := append(append([]sigT{}, sigs[:at]...), sigs[at+1:]...)
 		a2, err := sch.AggregateSignatures(rest...)
 		if err != nil {
@@ -600,9 +611,6 @@ func blsAggCase[
 		}
 		aSigV = a2.Value()
 	case "drop-key":
-		if n < 2 {
-			t.Skip("needs two signers")
-		}
 		keys = append(keys[:at:at], keys[at+1:]...)
 		pks = append(pks[:at:at], pks[at+1:]...)
 		msgs = append(msgs[:at:at], msgs[at+1:]...)
@@ -621,7 +629,10 @@ func blsAggCase[
 		aSigV = agg.Value().Add(fs.Value())
 	case "swap-msgs", "swap-keys":
 		j := (at + 1) % n
-		if bytes.Equal(msgs[at], msgs[j]) || n < 2 {
+		for k := 0; k < n && bytes.Equal(msgs[at], msgs[j]); k++ {
+			j = (j + 1) % n
+		}
+		if bytes.Equal(msgs[at], msgs[j]) {
 			t.Skip("nothing to swap")
 		}
 		if alt == "swap-msgs" {
@@ -636,7 +647,20 @@ func blsAggCase[
 	case "identity-key":
 		keys[at] = hKey[PK]{v: e.keyGrp.OpIdentity(), inSub: true, ident: true}
 		pks[at] = e.identityKey()
+	case "identity-key-consistent":
+		// the identity key contributes e(O, H(m)) = 1: with that signer's signature left out of the
+		// aggregate the pairing product holds, only the identity-key check can reject
+		keys[at] = hKey[PK]{v: e.keyGrp.OpIdentity(), inSub: true, ident: true}
+		pks[at] = e.identityKey()
+		rest := append(append([]sigT{}, sigs[:at]...), sigs[at+1:]...)
+		a2, err := sch.AggregateSignatures(rest...)
+		if err != nil {
+			t.Fatalf("AggregateSignatures: %v", err)
+		}
+		aSigV = a2.Value()
 	case "torsion-key":
+		// pk + T with T of cofactor order: e(T, H(m)) = 1, so the pairing product still holds and
+		// only the subgroup check can reject
 		keys[at] = hKey[PK]{v: keys[at].v.Add(e.torsion(t)), inSub: false}
 		pks[at] = e.rawKey(keys[at].v)
 	case "identity-sig":
@@ -658,19 +682,10 @@ func blsAggCase[
 			pops[at] = os.Pop() // a VALID proof for the substituted key: only the signature check can fail
 		}
 	case "pop-wrong":
-		if alg != bls.POP || n < 2 {
-			t.Skip("needs POP and two signers")
-		}
 		pops[at] = pops[(at+1)%n]
 	case "pop-count":
-		if alg != bls.POP {
-			t.Skip("needs POP")
-		}
 		pops = pops[:len(pops)-1]
 	case "pops-on-non-pop":
-		if alg == bls.POP {
-			t.Skip("needs a scheme without proofs")
-		}
 		psch, err := e.scheme(bls.POP)
 		if err != nil {
 			t.Fatalf("scheme: %v", err)
@@ -775,7 +790,7 @@ func blsAggCase[
 // honest or with one bad contributor / argument.
 func TestBLSAggregate(t *testing.T) {
 	const test = "BLSAggregate"
-	vlib.Check(t, 110, func(t *rapid.T) {
+	vlib.Check(t, 100, func(t *rapid.T) {
 		if rapid.Bool().Draw(t, "short") {
 			blsAggCase(t, test, blsShort)
 		} else {
